@@ -40,6 +40,7 @@ Ghost0 == [drained |-> <<>>,      \* every line handed out through Changes.scrol
            dstate |-> NoLine,     \* the state dump() was taken in
            dstage |-> "none",     \* "dumped" until the first relation after the restore has been judged
            dexact |-> FALSE,      \* the restored terminal is exactly what the pinned dump() is known to restore to
+           lastClean |-> TRUE,    \* the parser's parameter array was clean beyond the live prefix after the last call
            lastText |-> <<>>,     \* the last text() output logged for this slot
            carry |-> <<>>]        \* TextUnwrapper carry of a collector slot
 
@@ -248,7 +249,8 @@ Handle(ll, e) ==
         e2 == IF k = "fc" THEN [ch |-> <<>>, dr |-> <<>>, consumed |-> TRUE, st |-> e.st, pre |-> prev.t]
               ELSE [ch |-> e.ch, dr |-> e.dr, consumed |-> e.consumed, st |-> e.st, pre |-> prev.t]
         g1 == GhostStep(gh[s], prev, fns, cur, IF k = "fc" THEN <<>> ELSE e.dr)
-        g2 == IF k = "rs" THEN [g1 EXCEPT !.resized = TRUE, !.snapResized = TRUE, !.savP.moved = TRUE, !.savA.moved = TRUE] ELSE g1
+        g1b == [g1 EXCEPT !.lastClean = e.clean]
+        g2 == IF k = "rs" THEN [g1b EXCEPT !.resized = TRUE, !.snapResized = TRUE, !.savP.moved = TRUE, !.savA.moved = TRUE] ELSE g1b
     IN [vts |-> [vts EXCEPT ![s] = cur], gh |-> [gh EXCEPT ![s] = g2],
         msgs |-> Conformance(ll, k, r, fns, e2, own)
                  \o StateMsgs(ll, prev, IF k = "rs" THEN <<>> ELSE fns, cur, e)
@@ -311,7 +313,8 @@ Handle(ll, e) ==
                                                  ELSE IF gh[s1].dclass # {} /\ exact THEN <<Msg("KNOWN C11", ll, "classes=" \o S(gh[s1].dclass))>>
                                                  ELSE <<Msg("FAIL C11", ll, "restored terminal differs: " \o S(DiffFields(Pub(a), Pub(b))) \o " hidden: " \o S(DiffFields(Hidden(a), Hidden(b)))
                                                             \o (IF gh[s1].dclass # {} THEN " (in class " \o S(gh[s1].dclass) \o " but not the known failure)" ELSE ""))>>)
-                        [] e.name = "FreshEq" -> (IF FreshEq(a, b) THEN <<>> ELSE <<Msg("FAIL C19", ll, "differs from a fresh terminal: " \o S(TermDiff(NoDirty(a).t, NoDirty(b).t)))>>)
+                        [] e.name = "FreshEq" -> (IF FreshEq(a, b) /\ gh[e.slots[1]].lastClean THEN <<>>
+                                                   ELSE IF FreshEq(a, b) THEN <<Msg("FAIL C19", ll, "after RIS the parser still holds parameters of an earlier sequence")>> ELSE <<Msg("FAIL C19", ll, "differs from a fresh terminal: " \o S(TermDiff(NoDirty(a).t, NoDirty(b).t)))>>)
                         [] e.name = "ChunkEq" -> (IF ChunkEq(a, b) /\ ChunkEq(a, vts[e.slots[3]]) THEN <<>> ELSE <<Msg("FAIL C12", ll, "chunking changes the outcome: " \o S(TermDiff(Core(a), Core(b))) \o S(TermDiff(Core(a), Core(vts[e.slots[3]]))) \o S(a.p = b.p) \o S(a.t.buf.lines = b.t.buf.lines))>>)
                         [] e.name = "ChunkEqFlushed" -> (IF ChunkEqFlushed(a, b) /\ ChunkEqFlushed(a, vts[e.slots[3]]) THEN <<>> ELSE <<Msg("FAIL C12", ll, "chunking changes the outcome (after flush)")>>)
                         [] e.name = "NoLoss" ->
